@@ -689,7 +689,7 @@ class Executor:
         d = poly.to_rf(ctx, a) - poly.to_rf(ctx, b)
         if d.d is not None:
             raise ValueError("denominator")
-        pl = d.n.reduce().copy()
+        pl = d.n.reduce(full=True).copy()
         pl.normalize()
         c0 = Fraction(pl.t.get(ctx.bias_all, 0), pl.den)
         q = pl - ctx.const_lp(c0)
@@ -1082,6 +1082,13 @@ class Executor:
             if not isinstance(fv, FnPtr):
                 raise Unsupported("indirect call through %r" % (fv,))
             name = fv.name
+        elif cal.kind == "asm":
+            txt = cal.v[0].strip('"')
+            if txt == "" or txt.startswith("#"):
+                # comment-only / empty inline asm (Eigen's optimisation barriers): no effect; value form returns its operand
+                args = [self.val(a, env) if a is not None else None for a in ins.args]
+                return args[0] if (args and ins.ty is not None and ins.ty.k != "void") else None
+            raise Unsupported("inline asm " + txt)
         elif cal.kind == "cexpr":
             name = cal.v[1].v
         else:
